@@ -40,7 +40,7 @@ package pkce
 
 //@ func (*Handler).CanHandleTokenEndpointRequest
 //@   pure
-//@   ensures result == requester.GetGrantTypes().ExactOne("authorization_code")
+//@   ensures [C03.same-dispatch-as-code-handler] result == requester.GetGrantTypes().ExactOne("authorization_code")
 
 //@ func (*Handler).validateNoPKCE
 //@   requires c != nil
